@@ -507,6 +507,21 @@ def _split_tuple_assignments(tree):
 
         def visit_Assign(self, n):
             n = self.generic_visit(n)
+            # `obj.attr, acc = f(..)`  ->  `__u, acc = f(..); obj.attr = __u`   (each store gets a statement of its own)
+            if len(n.targets) == 1 and isinstance(n.targets[0], ast.Tuple) and isinstance(n.value, ast.Call) \
+                    and any(isinstance(t, (ast.Attribute, ast.Subscript)) for t in n.targets[0].elts) \
+                    and all(isinstance(t, (ast.Attribute, ast.Subscript, ast.Name)) for t in n.targets[0].elts):
+                import copy as _c
+                elts, post = [], []
+                for i_, t in enumerate(n.targets[0].elts):
+                    if isinstance(t, ast.Name):
+                        elts.append(t)
+                    else:
+                        tmp = f"__u{getattr(n, 'lineno', 0)}_{i_}"
+                        elts.append(ast.Name(id=tmp, ctx=ast.Store()))
+                        post.append(ast.copy_location(ast.Assign(targets=[t], value=ast.Name(id=tmp, ctx=ast.Load()), type_comment=None), n))
+                first = ast.copy_location(ast.Assign(targets=[ast.Tuple(elts=elts, ctx=ast.Store())], value=n.value, type_comment=None), n)
+                return [first] + post
             # a = b = v   ->   b = v; a = b      (b a plain name: both targets denote the same object afterwards)
             if len(n.targets) > 1 and isinstance(n.targets[-1], ast.Name):
                 last = n.targets[-1]
@@ -709,9 +724,11 @@ def _split_tuple_assignments(tree):
             for i, s in enumerate(body):
                 if not (isinstance(s, ast.Assign) and len(s.targets) == 1 and isinstance(s.targets[0], ast.Attribute) and isinstance(s.targets[0].value, ast.Name)
                         and s.targets[0].value.id not in ("self", "cls")
-                        and ((isinstance(s.value, ast.List) and not s.value.elts) or (isinstance(s.value, ast.Call) and isinstance(s.value.func, ast.Name)
-                                                                                      and s.value.func.id == "list" and not s.value.args and not s.value.keywords))):
+                        and ((isinstance(s.value, ast.List) and not s.value.elts) or (isinstance(s.value, ast.Dict) and not s.value.keys) or
+                             (isinstance(s.value, ast.Call) and isinstance(s.value.func, ast.Name)
+                              and s.value.func.id in ("list", "dict") and not s.value.args and not s.value.keywords))):
                     continue
+                is_dict_ = isinstance(s.value, ast.Dict) or (isinstance(s.value, ast.Call) and s.value.func.id == "dict")
                 obj, attr = s.targets[0].value.id, s.targets[0].attr
                 path = f"{obj}.{attr}"
                 last, ok, appends = None, True, []
@@ -735,8 +752,11 @@ def _split_tuple_assignments(tree):
                             par = parents.get(id(x))
                             gp = parents.get(id(par)) if par is not None else None
                             ggp = parents.get(id(gp)) if gp is not None else None
-                            if isinstance(par, ast.Attribute) and par.attr == "append" and isinstance(gp, ast.Call) and gp.func is par and isinstance(ggp, ast.Expr):
+                            if not is_dict_ and isinstance(par, ast.Attribute) and par.attr == "append" and isinstance(gp, ast.Call) and gp.func is par and isinstance(ggp, ast.Expr):
                                 appends.append(x)
+                            elif is_dict_ and isinstance(par, ast.Subscript) and par.value is x and isinstance(par.ctx, ast.Store) and isinstance(gp, ast.Assign) \
+                                    and len(gp.targets) == 1 and gp.targets[0] is par:
+                                appends.append(x)          # obj.X[key] = value
                             else:
                                 ok = False
                         elif isinstance(x, ast.Name) and x.id == obj and isinstance(x.ctx, ast.Load):
